@@ -1283,6 +1283,18 @@ class Exec:
             return DictV(lambda y, c=cond, x=x: z3.substitute(c, (x, y)), lambda y, t=t, x=x: NameV(z3.substitute(t, (x, y))))
         if isinstance(k, NameV) and k.term.eq(x) and z3.is_expr(v) and v.sort() == B and not gen.ifs:
             return DictV(lambda y, c=cond, x=x: z3.substitute(c, (x, y)), lambda y, t=v, x=x: z3.substitute(t, (x, y)), vkind="bool")
+        if isinstance(k, NameV) and isinstance(v, NameV) and not gen.ifs and z3.is_app(k.term):
+            # {f"{a}.{x}": value(x) for x in S}: the key is a name template, injective in the loop variable, so the
+            # loop variable is recovered from a key with the template's inverse
+            f = k.term.decl()
+            parts = next((p for p, g in self.ctx.templates.items() if g.eq(f)), None)
+            args = list(k.term.children())
+            if parts is not None and args and args[-1].eq(x) and not any(_occurs(x, [a]) for a in args[:-1]):
+                inv = self.ctx.template_inverse[parts]
+                back = lambda y, a=args[:-1]: inv(*(a + [y]))
+                dom = lambda y, a=args[:-1], c=cond: z3.And(y == f(*(a + [back(y)])), z3.substitute(c, (x, back(y))))
+                val = lambda y, t=v.term: NameV(z3.substitute(t, (x, back(y))))
+                return DictV(dom, val)
         raise Unsupported("dict comprehension")
 
     # ------------------------------------------------------------------ calls
